@@ -60,8 +60,10 @@ def to_labels(trace):
                 labels.append("close")
             elif kind == "join-thread":
                 labels.append("jt")
-            elif kind == "set-flag":
+            elif kind == "set-flag" and t[2] == "e0":
                 labels.append("set")
+            elif kind == "flag?" and t[2] == "e1":
+                pass        # the parent's final look at the error flag (C19)
             elif kind == "join":
                 labels.append(f"join:{wid(t[2])}")
             else:
@@ -84,8 +86,8 @@ def to_labels(trace):
                 labels.append(f"re:{k}")
             elif kind == "recv":
                 labels.append(f"rr:{k}:" + fp(parse_pos(t[3])))
-            elif kind == "flag?":
-                labels.append(f"fq:{k}:{1 if t[2] == 'true' else 0}")
+            elif kind == "flag?" and t[2] == "e0":
+                labels.append(f"fq:{k}:{1 if t[3] == 'true' else 0}")
             elif kind == "cb-begin":
                 labels.append(f"cbb:{k}:" + fp(parse_pos(t[2])))
             elif kind == "cb-end":
@@ -125,38 +127,29 @@ def judge_log(case, log, returned, what):
     return None
 
 
-def _real_child(q, case, par, d):
+def _real_target(case, par, d):
     import toasty.par_util
     toasty.par_util.SHOW_INFORMATIONAL_MESSAGES = False
-    try:
-        def cb(pos):
-            t0 = time.monotonic_ns()
-            time.sleep(0.002)
-            t1 = time.monotonic_ns()
-            with open(os.path.join(d, f"{os.getpid()}_{pos.n}_{pos.x}_{pos.y}_{t0}"), "w") as f:
-                f.write(f"{t0} {t1}")
-        case.build().walk(cb, parallel=par)
-        q.put("ok")
-    except BaseException as e:  # noqa
-        q.put(f"error {type(e).__name__}: {e}")
+
+    def cb(pos):
+        t0 = time.monotonic_ns()
+        time.sleep(0.002)
+        t1 = time.monotonic_ns()
+        with open(os.path.join(d, f"{os.getpid()}_{pos.n}_{pos.x}_{pos.y}_{t0}"), "w") as f:
+            f.write(f"{t0} {t1}")
+    case.build().walk(cb, parallel=par)
+    return "ok"
 
 
 def real_walk(case, par, timeout=90):
+    from .common import run_isolated
     d = tempfile.mkdtemp(prefix="vfc01r_")
     try:
-        q = mp.Queue()
-        p = mp.Process(target=_real_child, args=(q, case, par, d))
-        p.start()
-        p.join(timeout)
-        if p.is_alive():
-            # kill the whole group of daemons by killing the parent
-            p.kill()
-            p.join()
+        st, val = run_isolated(_real_target, (case, par, d), timeout)
+        if st == "hang":
             return None, "hang"
-        try:
-            st = q.get(timeout=2)
-        except Exception:
-            st = f"died ({p.exitcode})"
+        if st != "ok":
+            return None, f"{st}: {val}"
         log = []
         for name in os.listdir(d):
             _pid, n, x, y, _t = name.split("_")
@@ -164,7 +157,7 @@ def real_walk(case, par, timeout=90):
             log.append((t0, "B", (int(n), int(x), int(y))))
             log.append((t1, "E", (int(n), int(x), int(y))))
         log.sort()
-        return [(k, p_) for (_t, k, p_) in log], st
+        return [(k, p_) for (_t, k, p_) in log], "ok"
     finally:
         shutil.rmtree(d, ignore_errors=True)
 
